@@ -82,3 +82,183 @@ pub fn chain(mut links: Vec<Link>) -> Network {
     v.extend(links);
     Network(v)
 }
+
+// ---------------------------------------------------------------------------------------------
+// Topology builder: forward links with explicit connectivity, flipped twins generated mechanically
+// ---------------------------------------------------------------------------------------------
+
+/// one forward link of a topology (indices are 1-based positions among the forward links)
+#[derive(Clone, Debug)]
+pub struct FwdLink {
+    pub length_m: f64,
+    pub next: usize,
+    pub next_alt: usize,
+    pub prev: usize,
+    pub prev_alt: usize,
+    /// (offset, elevation) points; empty = flat at `elev0`
+    pub elevs: Vec<(f64, f64)>,
+    pub headings: Vec<(f64, f64)>,
+    pub speed_limits: Vec<(f64, f64, f64)>,
+    pub cat: Vec<(f64, f64, f64)>,
+    pub head_end: bool,
+    /// lockout partners (forward indices); flips are added automatically
+    pub lockout: Vec<usize>,
+}
+
+impl FwdLink {
+    pub fn new(length_m: f64, speed: f64) -> Self {
+        FwdLink {
+            length_m,
+            next: 0,
+            next_alt: 0,
+            prev: 0,
+            prev_alt: 0,
+            elevs: vec![],
+            headings: vec![],
+            speed_limits: vec![(0.0, length_m, speed)],
+            cat: vec![],
+            head_end: false,
+            lockout: vec![],
+        }
+    }
+}
+
+/// Build a network from forward links; forward link i gets index i, its flip index n+i.
+/// `with_flips=false` builds a one-directional network (no flips).
+pub fn build_topology(fwd: &[FwdLink], with_flips: bool, style: SetStyle) -> Network {
+    let n = fwd.len();
+    let mut links = vec![Link::default()];
+    for (i, f) in fwd.iter().enumerate() {
+        let ss = SpeedSet { speed_limits: speed_limits_from(&f.speed_limits), speed_params: vec![], is_head_end: f.head_end };
+        let mut l = link(i + 1, f.length_m, elevs_from(&f.elevs), headings_from(&f.headings), ss, style);
+        l.idx_next = lidx(f.next);
+        l.idx_next_alt = lidx(f.next_alt);
+        l.idx_prev = lidx(f.prev);
+        l.idx_prev_alt = lidx(f.prev_alt);
+        l.cat_power_limits = cat_from(&f.cat);
+        if with_flips {
+            l.idx_flip = lidx(n + i + 1);
+        }
+        let mut lock: Vec<LinkIdx> = vec![];
+        for k in &f.lockout {
+            lock.push(lidx(*k));
+            if with_flips {
+                lock.push(lidx(n + *k));
+            }
+        }
+        l.link_idxs_lockout = lock;
+        links.push(l);
+    }
+    if with_flips {
+        let fl = |k: usize| if k == 0 { 0 } else { n + k };
+        for (i, f) in fwd.iter().enumerate() {
+            let len = f.length_m;
+            let mut elevs: Vec<(f64, f64)> = if f.elevs.is_empty() { vec![(0.0, 0.0), (len, 0.0)] } else { f.elevs.clone() };
+            elevs = elevs.iter().rev().map(|(o, e)| (len - o, *e)).collect();
+            let headings: Vec<(f64, f64)> = f.headings.iter().rev().map(|(o, h)| (len - o, (h + std::f64::consts::PI) % (2.0 * std::f64::consts::PI))).collect();
+            let mut sl: Vec<(f64, f64, f64)> = f.speed_limits.iter().map(|(s, e, v)| (len - e, len - s, *v)).collect();
+            sl.sort_by(|a, b| a.partial_cmp(b).unwrap());
+            let mut cat: Vec<(f64, f64, f64)> = f.cat.iter().map(|(s, e, p)| (len - e, len - s, *p)).collect();
+            cat.sort_by(|a, b| a.partial_cmp(b).unwrap());
+            let ss = SpeedSet { speed_limits: speed_limits_from(&sl), speed_params: vec![], is_head_end: f.head_end };
+            let mut l = link(n + i + 1, len, elevs_from(&elevs), headings_from(&headings), ss, style);
+            l.idx_flip = lidx(i + 1);
+            l.idx_next = lidx(fl(f.prev));
+            l.idx_next_alt = lidx(fl(f.prev_alt));
+            l.idx_prev = lidx(fl(f.next));
+            l.idx_prev_alt = lidx(fl(f.next_alt));
+            l.cat_power_limits = cat_from(&cat);
+            let mut lock: Vec<LinkIdx> = vec![];
+            for k in &f.lockout {
+                lock.push(lidx(*k));
+                lock.push(lidx(n + *k));
+            }
+            l.link_idxs_lockout = lock;
+            links.push(l);
+        }
+    }
+    Network(links)
+}
+
+/// make elevations continuous across connected links: assigns each forward link a start elevation by
+/// walking `next` from link 1 (call before build_topology on patterns given relative to 0)
+pub fn line_topology(lengths: &[f64], speed: f64) -> Vec<FwdLink> {
+    let n = lengths.len();
+    (0..n)
+        .map(|i| {
+            let mut f = FwdLink::new(lengths[i], speed);
+            f.prev = i; // 0 for the first
+            f.next = if i + 1 < n { i + 2 } else { 0 };
+            f
+        })
+        .collect()
+}
+
+/// A(1) -> [B(2) main | C(3) siding] -> D(4)
+pub fn siding_topology(len_a: f64, len_b: f64, len_c: f64, len_d: f64, speed: f64) -> Vec<FwdLink> {
+    let mut a = FwdLink::new(len_a, speed);
+    let mut b = FwdLink::new(len_b, speed);
+    let mut c = FwdLink::new(len_c, speed);
+    let mut d = FwdLink::new(len_d, speed);
+    a.next = 2;
+    a.next_alt = 3;
+    b.prev = 1;
+    c.prev = 1;
+    b.next = 4;
+    c.next = 4;
+    d.prev = 2;
+    d.prev_alt = 3;
+    vec![a, b, c, d]
+}
+
+/// Y: A(1) and B(2) merge into C(3)   (A primary)
+pub fn y_merge_topology(len_a: f64, len_b: f64, len_c: f64, speed: f64) -> Vec<FwdLink> {
+    let mut a = FwdLink::new(len_a, speed);
+    let mut b = FwdLink::new(len_b, speed);
+    let mut c = FwdLink::new(len_c, speed);
+    a.next = 3;
+    b.next = 3;
+    c.prev = 1;
+    c.prev_alt = 2;
+    vec![a, b, c]
+}
+
+// ---------------------------------------------------------------------------------------------
+// Link feature catalogue (NET/ROUTE): elevation / heading / catenary patterns
+// ---------------------------------------------------------------------------------------------
+
+/// relative elevation pattern; returns points (offset, elev) starting at `e0`, and the end elevation
+pub fn elev_pattern(kind: u8, len: f64, e0: f64) -> (Vec<(f64, f64)>, f64) {
+    let pts: Vec<(f64, f64)> = match kind {
+        0 => vec![(0.0, e0), (len, e0)],                                                   // flat
+        1 => vec![(0.0, e0), (len, e0 + 0.01 * len)],                                      // +1 %
+        2 => vec![(0.0, e0), (len, e0 - 0.015 * len)],                                     // -1.5 %
+        3 => vec![(0.0, e0), (len * 0.5, e0 - 0.005 * len), (len, e0)],                    // vee
+        _ => vec![(0.0, e0), (len * 0.25, e0 + 0.0025 * len), (len * 0.5, e0 + 0.0025 * len), (len, e0 - 0.0025 * len)], // 4 points
+    };
+    let end = pts.last().unwrap().1;
+    (pts, end)
+}
+
+/// heading pattern: 0 absent, 1 straight, 2 gentle curve (2 deg / 100 ft), 3 wrap-around increasing (6.2 -> 0.1),
+/// 4 three points with a sharp then gentle curve, 5 wrap-around decreasing (0.1 -> 6.2)
+pub fn heading_pattern(kind: u8, len: f64) -> Vec<(f64, f64)> {
+    let two_deg_per_100ft = 2.0 * 1.745_329_251_994_329_5e-2 / 30.48; // rad per m
+    match kind {
+        0 => vec![],
+        1 => vec![(0.0, 1.0), (len, 1.0)],
+        2 => vec![(0.0, 1.0), (len, (1.0 + two_deg_per_100ft * len.min(200.0)) % 6.28)],
+        3 => vec![(0.0, 6.2), (len, 0.1)],
+        4 => vec![(0.0, 0.5), (len * 0.3, 0.5 + (0.0015 * len * 0.3).min(1.0)), (len, 0.5 + (0.0015 * len * 0.3).min(1.0) + (0.0001 * len * 0.7).min(0.5))],
+        _ => vec![(0.0, 0.1), (len, 6.2)],
+    }
+}
+
+/// catenary pattern: 0 none, 1 one section, 2 two disjoint sections
+pub fn cat_pattern(kind: u8, len: f64) -> Vec<(f64, f64, f64)> {
+    match kind {
+        0 => vec![],
+        1 => vec![(len * 0.2, len * 0.7, 4.0e6)],
+        _ => vec![(0.0, len * 0.3, 5.0e6), (len * 0.5, len, 3.0e6)],
+    }
+}
